@@ -126,6 +126,28 @@ pub fn dispatch(name: &str, args: &[&str]) -> Option<String> {
                 Err(e) => req_err(e),
             })
         }
+        // C03: outcome class + peak heap growth of the call
+        "safe_req" => {
+            let mut rd = Scripted::new(chunks_of(args[0]));
+            let base = crate::meter::start();
+            let r = Request::from_stream(&mut rd, "1.2.3.4:80".parse().unwrap());
+            let peak = crate::meter::peak_since(base);
+            Some(match r {
+                Ok(_) => format!("ok alloc={}", peak),
+                Err(e) => format!("{} alloc={}", req_err(e), peak),
+            })
+        }
+        "safe_resp" => {
+            let mut rd = Scripted::new(chunks_of(args[0]));
+            let base = crate::meter::start();
+            let r = Response::from_stream(&mut rd);
+            let peak = crate::meter::peak_since(base);
+            Some(match r {
+                Ok(_) => format!("ok alloc={}", peak),
+                Err(ResponseError::Response) => format!("err:0 alloc={}", peak),
+                Err(ResponseError::Stream) => format!("err:1 alloc={}", peak),
+            })
+        }
         "req_parse_flat" => {
             let b = unhex(args[2]);
             let total = b.len();
